@@ -118,7 +118,7 @@ class CoordinationSystem:
                 raise CheckpointError(f"S checkpoint failed: {checkpoint_result}")
 
             # Validate in G2 phase
-            if validate_fn:
+            if validate_fn is not None:
                 if not validate_fn(result):
                     raise ValidationError("Validation failed")
 
